@@ -492,3 +492,12 @@ func (w *cworld) teardown(mgr *gpcapture.Manager) {
 
 func c20(r *sim.R) *sim.Violation { return captureRun(r, "C20") }
 func c21(r *sim.R) *sim.Violation { return captureRun(r, "C21") }
+
+// c23: one run in three drives the bare buffer against a reference FIFO, the others exercise it in
+// situ (the C21 scenario on one interface).
+func c23(r *sim.R) *sim.Violation {
+	if r.T.Draw(3) == 0 {
+		return c23bare(r)
+	}
+	return captureRun(r, "C23")
+}
